@@ -9,7 +9,14 @@ BACKENDS = ['html', 'latex', 'markdown', 'plaintext']     # model numbering 0..3
 
 # the alphabet of the property's quantifier (each back end's metacharacters) + neutral characters
 META = '<>&"*_`[]()#+-.!\\{}~%$^'
-ALPHA = META + 'aZ 1'
+ALPHA = META + 'aZ 1;'
+# every back end's escape OUTPUTS and near-misses, used as atomic tokens: text that already looks escaped
+# must be escaped again ("escaping is not idempotent by accident")
+TOKENS = ['&amp;', '&lt;', '&gt;', '&quot;', '&#38;', '&#x26;', '&nbsp;', '&ndash;', '&x;', '&;', '& ;', '&a', '&#;',
+          '\\\\', '\\*', '\\_', '\\{', '\\}', '\\`', '\\[', '\\!',
+          '{\\%}', '\\&', '\\#', '\\%', '\\textbackslash{}', '\\textasciitilde', '\\textasciitilde ', '\\~{}', '\\ ',
+          '--', '---', '~', '~~', "''", '``', '<b>', '</b>', '<br/>', '[x](y)', '**', '`x`']
+TOKEN_NEUTRAL = ['a', ' ', ';', '&', '#', 'x1']
 MD_ESCAPABLE = '\\`*_{}[]()#+-.!'        # Markdown syntax document, "backslash escapes"
 
 # ----------------------------------------------------------------------------------------
@@ -562,7 +569,7 @@ def Prot_(*ps): return [5, list(ps)]
 def Str_(s): return [0, s]
 def Sym_(n): return [1, n]
 
-LEAVES_Q = [Str_(''), Str_('a'), Str_('<&>*'), Str_('_{\\}~#'), Str_('u'), Sym_('nbsp'), Sym_('ndash')]
+LEAVES_Q = [Str_(''), Str_('a'), Str_('<&>*'), Str_('_{\\}~#'), Str_('u'), Sym_('nbsp'), Sym_('ndash'), Str_('&amp;\\*&#38;--')]
 NODES_Q = [lambda ps: T_(*ps), lambda ps: Tag_('em', *ps), lambda ps: Tag_('strong', *ps), lambda ps: Tag_('zz', *ps),
            lambda ps: HRef_('u', *ps), lambda ps: HRef_('http://x.org/a_b', *ps, ext=1), lambda ps: Prot_(*ps)]
 
@@ -598,6 +605,8 @@ def rand_str(rng, maxlen=8, alpha=None):
         return ''
     if r < 0.2:
         return ''.join(rng.choice(ALPHA + WS + UNI) for _ in range(rng.randint(1, maxlen)))
+    if r < 0.45:
+        return ''.join(rng.choice(TOKENS + TOKEN_NEUTRAL) for _ in range(rng.randint(1, max(1, maxlen // 2))))
     return ''.join(rng.choice(alpha) for _ in range(rng.randint(1, maxlen)))
 
 TAGS = ['em', 'strong', 'i', 'b', 'tt', 'sup', 'sub', 'zz', 'span', 'emph']
@@ -664,6 +673,8 @@ PINNED = [
     (1, [2, 0, Str_('\\`*_{}[]()#+-.!<>&')]),
     (1, [3, 0, T_(Str_('a'), Sym_('ndash'), Sym_('nbsp'), Sym_('newblock'), Tag_('em', Str_('b')))]),
     (1, [0, 0, Sym_('zzz')]),
+    (2, [0, '&amp;']), (2, [0, '&lt;blink&gt;']), (2, [0, 'caf&#233;']), (2, [0, '&x;']), (2, [2, '\\*a\\\\']), (2, [2, '&amp;']),
+    (2, [1, '\\&{\\%}']), (2, [3, 'a--b~c']), (1, [0, 0, Tag_('em', Str_('&lt;blink&gt;'), Str_(' caf&#233;'))]),
     (1, [0, 0, HRef_('u', Str_('x'), ext=1)]),          # F10 neighbourhood: external survives rendering
     (4, ['abc{def {xyz}} !']), (4, ['a{b}{c}{}{{}}d{e{f}}{{g}h}']), (4, ['}']), (4, ['{']), (4, ['a\\']), (4, ['']),
     (5, ['abc{def {xyz}} !']), (5, ['a{b}{c}{}{{}}d{e{f}}{{g}h}']), (5, ['{{{a}}}{{{b}}}']), (5, ['a_b {~}']),
@@ -693,6 +704,13 @@ def gen(tier, rng):
         for cs in itertools.product('&<\\*~a #', repeat=3):
             for b in range(3):
                 yield ('exhaustive_strings', 2, [b, ''.join(cs)])
+    # (a) exhaustive small scope: sequences of already-escaped-looking tokens
+    L = 2 if tier == 'quick' else 3
+    toks = TOKENS + TOKEN_NEUTRAL
+    for n in range(1, L + 1):
+        for ts in itertools.product(toks if n < 3 else toks[::2], repeat=n):
+            for b in range(4):
+                yield ('exhaustive_tokens', 2, [b, ''.join(ts)])
     # format_tag / format_href / format_protected on arbitrary rendered text
     for b in range(4):
         for text in ['', 'x', '{', 'http://x.org/a\\_b', 'u']:
@@ -747,7 +765,7 @@ def gen(tier, rng):
 
 RULE = ('exhaustive: every tree of <= 3 (thorough: 4) nodes over 7 leaves (strings of each back end\'s metacharacters, empty string, symbols) and 7 node kinds '
         '(Text, Tag em/strong/unknown, HRef +-external, Protected) x 4 back ends x {built through the constructors, parts set directly}; every string of length <= 2 (thorough: 3) over the '
-        '28-character alphabet of the property x 4 back ends; every field value of length <= 6 (thorough: 8) over {a { } space}; random: deeper trees with Unicode and whitespace, whole documents, '
+        '29-character alphabet (incl. ;), every sequence of <= 2 (thorough: 3) tokens from the back ends\' own escape outputs and near-misses (&amp; &#38; &x; \\* {\\%} -- ~ ...)  of the property x 4 back ends; every field value of length <= 6 (thorough: 8) over {a { } space}; random: deeper trees with Unicode and whitespace, whole documents, '
         'LaTeX values with escapes, nesting to depth 200; malformed: unknown symbols, odd tag names and URLs, unbalanced values. '
         'distinct = distinct (function, argument); non-trivial = a markup node with non-empty output / a string containing a metacharacter / a value with a brace group.')
 EXHAUSTIVE = {'quick': 'all trees of <= 3 nodes (7 leaves, 7 node kinds) x 4 back ends x 2 construction modes; all strings of length <= 2 over 28 characters x 4 back ends; all values of length <= 6 over {a,{,},space}',
